@@ -90,6 +90,78 @@ def integrate(prog, ctx, roles):
     ctx.decide('C08.b', 'Integrate:segments', fn, okb, 'loop covers segments i1..i2 inclusive (%s iterations)' % hi,
                'segment loop runs over [%s,%s), expected i2-i1+1 iterations' % (lo, hi), line=loop['l'])
     entry, cond, live, done, n0 = sx.loop_step(loop, st)
+    if len(live) > 1:
+        # paths that leave the accumulator alone (a skipped piece): admissible only for an empty piece (left end == right end)
+        accs = [k for k, v in entry.items() if isinstance(v, Symbol) and not str(v).startswith(var['name'] + '@')]
+        skip = [q for q in live if len(accs) == 1 and q.env.get(accs[0]) == entry[accs[0]]]
+        work = [q for q in live if q not in skip]
+        if len(work) == 1 and skip:
+            pw_ = [v for k, v in work[0].env.items() if isinstance(v, sp.Piecewise)]
+            ii_ = [v2 for k2, v2 in entry.items() if str(v2).startswith(var['name'] + '@')][0]
+
+            def at(v, val):
+                try:
+                    return v.subs(ii_, val)
+                except Exception:
+                    return None
+            ends = [v for v in pw_ if at(v, 0) == x1] + [v for v in pw_ if at(v, i2 - i1) == x2]
+            verdicts = []
+            for q in skip:
+                rels = []
+                for c_ in q.conds[n0:]:
+                    if isinstance(c_, sp.Basic):
+                        rels += list(c_.atoms(sp.core.relational.Relational)) + ([c_] if isinstance(c_, sp.core.relational.Relational) else [])
+                v_ = 'unknown'
+                if len(ends) == 2:
+                    XL_, XR_ = ends
+                    for r_ in rels:
+                        if isinstance(r_, sp.Equality) and {r_.lhs, r_.rhs} == {XL_, XR_}:
+                            v_ = 'empty'
+                        if isinstance(r_, (sp.Lt, sp.Le, sp.Gt, sp.Ge)):
+                            small, big = (r_.lhs, r_.rhs) if isinstance(r_, (sp.Lt, sp.Le)) else (r_.rhs, r_.lhs)
+                            if big.is_number and big > 0:
+                                for cand in [small] + ([e_ for e_, _c in small.args] if isinstance(small, sp.Piecewise) else []):
+                                    num_, den_ = sp.fraction(cand)
+                                    if is_zero(num_ - sp.Abs(XL_ - XR_)) or is_zero(num_ - sp.Abs(XR_ - XL_)):
+                                        v_ = ('tolerance', float(big), str(den_)[:60])
+                if v_ == 'unknown' and len(ends) == 2:
+                    # the skip condition is an in-repo predicate of the two ends: summarise the predicate on fresh symbols
+                    for c_ in q.conds[n0:]:
+                        if not isinstance(c_, sp.Basic):
+                            continue
+                        for app in c_.atoms(sp.core.function.AppliedUndef):
+                            if len(app.args) >= 2 and {app.args[0], app.args[1]} == {ends[0], ends[1]}:
+                                cal = [f_ for f_ in prog.repo_functions() if f_.q == app.func.__name__ and len(f_.params) == len(app.args)]
+                                if len(cal) != 1:
+                                    continue
+                                try:
+                                    sx2 = Symx(prog, cal[0], inline={'*'})
+                                    outs2 = sx2.run()
+                                except Exception:
+                                    continue
+                                ps_ = [sx2.symbol(p_['name'], p_['ty']) for p_ in cal[0].params]
+                                for o2 in outs2:
+                                    terms2 = [t2 for t2 in list(o2.state.conds) + ([o2.value] if isinstance(o2.value, sp.Basic) else []) if isinstance(t2, sp.Basic)]
+                                    for t2 in terms2:
+                                        for r_ in t2.atoms(sp.core.relational.Relational):
+                                            if not isinstance(r_, (sp.Lt, sp.Le, sp.Gt, sp.Ge)):
+                                                continue
+                                            small, big = (r_.lhs, r_.rhs) if isinstance(r_, (sp.Lt, sp.Le)) else (r_.rhs, r_.lhs)
+                                            for cand in [small] + ([e_ for e_, _c in small.args] if isinstance(small, sp.Piecewise) else []):
+                                                num_, den_ = sp.fraction(cand)
+                                                if is_zero(num_ - sp.Abs(ps_[0] - ps_[1])) and big in ps_[2:]:
+                                                    tv = app.args[ps_.index(big)]
+                                                    if tv.is_number and tv > 0:
+                                                        v_ = ('tolerance', float(tv), '%s (predicate %s)' % (str(den_)[:40], cal[0].q.split('::')[-1]))
+                verdicts.append(v_)
+            tol = [v_ for v_ in verdicts if isinstance(v_, tuple)]
+            if tol:
+                ctx.violated('C08.b', 'Integrate:skipped-piece', fn, 'a piece is skipped when its ends differ by less than %g relative to %s: a tolerance on the abscissae, not an empty piece - '
+                             'for a table whose knot spacing is below that tolerance times |x| every piece is dropped' % (tol[0][1], tol[0][2]),
+                             witness={'tolerance': tol[0][1], 'reproducer': 'x = 2^30 + k/128, y = 1: Integrate over the table returns 0'}, line=loop['l'])
+                return
+            if all(v_ == 'empty' for v_ in verdicts):
+                live = work
     if len(live) != 1:
         raise Undecided('Integrate loop body branches')
     p = live[0]
